@@ -442,6 +442,10 @@ def jobs(tier):
         for h in ((64, 96, 106, 128) if tier == "quick" else (16, 33, 64, 77, 96, 106, 128, 136, 200, 255)):
             for fmt in ("cbdt", "sbix"):
                 js.append(Job(f"metrics[{fmt},square,upem={upem},F={F},h={h}]", C14.job_metrics, upem=upem, F=F, h=h, mode="square", fmt=fmt))
+    from harness import C07
+
+    for fmt in ("glyf_colr_1", "cff2_colr_1", "cff_colr_0", "picosvg", "cbdt", "sbix"):
+        js.append(Job(f"post_format[{fmt}]", C07.job_post_format, fmt=fmt))
     for c1 in BITMAP_COMBOS:
         for c2 in BITMAP_COMBOS:
             for shared in (True, False):
